@@ -585,7 +585,7 @@ func NewEnv() *Env {
 	o3.CreateKey = "^"
 	e.Opts = []*ojg.Options{&o1, &o2, &o3}
 	// RBoard alone: its element types (array-of-struct included) come with it
-	rec, err := alt.NewRecomposer("^", map[any]alt.RecomposeFunc{&RInner{}: nil, &RTagged{}: nil, &RBoard{}: nil})
+	rec, err := alt.NewRecomposer("^", map[any]alt.RecomposeFunc{&RInner{}: nil, &RTagged{}: nil, &RBoard{}: nil, &RNest{}: nil})
 	if err != nil {
 		panic(err)
 	}
@@ -785,6 +785,11 @@ func (s *poolSubject) Exec(c *Call) (o Outcome) {
 			// by several goroutines at once
 			var target RBoard
 			v, err := s.env.Rec.Recompose(boardData(c.Val), &target)
+			o.Text = "V=" + Render(v) + " E=" + errText(err)
+		case "rec.Nest":
+			// struct types behind containers of containers: registered with RNest, not by these calls
+			var target RNest
+			v, err := s.env.Rec.Recompose(nestData(c.Val), &target)
 			o.Text = "V=" + Render(v) + " E=" + errText(err)
 		case "oj.Unmarshal":
 			var target any
